@@ -168,7 +168,9 @@ func C06_Pinning() {
 	if h.latest < 2 {
 		vStop()
 	}
-	pin := h.first + int64(vChoice("pin", int(h.latest-h.first)))
+	// the pinned version may be the latest one at the time the export is opened; the writer then commits
+	// once more, so that it becomes deletable
+	pin := h.first + int64(vChoice("pin", int(h.latest-h.first+1)))
 	nExp := 1 + vChoice("exports", 2)
 	var exps []*Exporter
 	for i := 0; i < nExp; i++ {
@@ -177,6 +179,11 @@ func C06_Pinning() {
 		ex, err := it.Export()
 		vAssert(err == nil, "pin:export")
 		exps = append(exps, ex)
+	}
+	if pin == h.latest {
+		h.doSet(vChoice("later", h.p.n))
+		h.doCommit()
+		vCover("export-of-the-latest-version")
 	}
 	// an unrelated export on the latest version must not matter
 	var other *Exporter
